@@ -12,7 +12,7 @@ ERROR awkward_IndexedArray_getitem_carry(
   int64_t lenindex,
   int64_t lencarry) {
   for (int64_t i = 0;  i < lencarry;  i++) {
-    if (fromcarry[i] >= lenindex) {
+    if (fromcarry[i] < 0  ||  fromcarry[i] >= lenindex) {
       return failure("index out of range", i, fromcarry[i], FILENAME(__LINE__));
     }
     toindex[i] = (C)(fromindex[fromcarry[i]]);
